@@ -2,6 +2,7 @@
 import re
 import absint
 from engines import float_div_sites, classify_selection, enum_arms, norm_name
+from engines import check_required_steps
 from prov import Prov, params_of, field_names
 
 CLAIM = ("(DOM) every production call of a SimilarityCombiner::combine implementation is dominated by the non-empty edge of Matrix::is_empty on the "
@@ -209,6 +210,11 @@ def run(ck, prog, ctx):
                 pr = params_of(pv.of_operand(mn, st.rv["ops"][fr.index("rows")]), mn.id)
                 pc = params_of(pv.of_operand(mn, st.rv["ops"][fr.index("cols")]), mn.id)
                 ck.ob("ROLE", "matrix/new-fields", pr == {1} and pc == {2}, "Matrix::new stores (rows<-arg%s, cols<-arg%s)" % (sorted(pr), sorted(pc)), where=mn.where(st.line))
+
+    if gs is not None:
+        check_required_steps(ck, "ROLE", prog, gs, [("pairwise similarity of every (a, b)", lambda t: t.callee.trait == "similarity::Similarity" and t.callee.method == "calculate"),
+                                                     ("Matrix::new", lambda t: (t.callee.res or "").endswith("::new") and (t.callee.res or "").startswith("matrix::Matrix")),
+                                                     ("combine", lambda t: t.callee.trait == SC and t.callee.method in ("calculate", "combine"))])
 
     # ------------------------------------------------------------------ ROLE: cache key
     cs = prog.body("<similarity::CachedSimilarity<T> as similarity::Similarity>::calculate")
